@@ -373,7 +373,7 @@ def copies(facts):
                     m = per_worker[b][wi]
                     ea = sorted((worker_invariant(p, a), tuple(objs)) for p, objs in n["setup"].items() if not by_name.get(p, {}).get("flat") and not by_name.get(p, {}).get("shared_root"))
                     eb = sorted((worker_invariant(p, b), tuple(objs)) for p, objs in m["setup"].items() if not by_name.get(p, {}).get("flat") and not by_name.get(p, {}).get("shared_root"))
-                    if ea != eb:
+                    if ea != eb and not (n["clone_source"] or m["clone_source"]):
                         errs.append(("edges-differ", f"{wi}: dependencies differ between workers {a} and {b}: {ea[:2]} vs {eb[:2]}"))
                     if m["name"] not in n["bridged"]:
                         errs.append(("not-linked", f"{n['name']} is not linked to its equivalent {m['name']}"))
